@@ -169,11 +169,14 @@ def _udec_error(reason='invalid start byte'):
 
 def decode_utf8(data, encoding='utf-8', errors='strict'):
     """strict UTF-8 decoding of an SBytes (forks per lead-byte class)"""
-    if encoding.lower().replace('_', '-') not in ('utf-8', 'utf8') \
-            or errors != 'strict':
+    codec = encoding.lower().replace('_', '-')
+    if codec not in ('utf-8', 'utf8', 'utf-8-sig') or errors != 'strict':
         raise Unsupported('decode(%r, %r)' % (encoding, errors))
     items = [z3.BitVecVal(b, 8) if isinstance(b, int) else b
              for b in data.items]
+    if codec == 'utf-8-sig' and len(items) >= 3 and mkbool(z3.And(
+            items[0] == 0xEF, items[1] == 0xBB, items[2] == 0xBF)):
+        items = items[3:]       # the codec drops one leading byte order mark
     n = len(items)
     i = 0
     cps = []
@@ -232,7 +235,11 @@ def decode_utf8(data, encoding='utf-8', errors='strict'):
 def ctx_str(ctx, name, n, ascii_only=False):
     """n arbitrary Unicode scalar values (no surrogates)"""
     if ctx.mode == 'conc':
-        return ''.join(chr(c) for c in ctx._val(name))
+        v = ctx._val(name)
+        if ascii_only and any(c >= 0x80 for c in v):
+            from .core import Infeasible
+            raise Infeasible('outside the input domain (ascii only)')
+        return ''.join(chr(c) for c in v)
     cps = [z3.BitVec('%s[%d]' % (name, i), 32) for i in range(n)]
     ctx.inputs.append((name, 'str', cps, None))
     for c in cps:
